@@ -31,6 +31,15 @@ class Recorder(object):
             except Exception as exc:
                 out['exc'] = type(exc).__name__
                 out['site'] = list(core.exc_site(exc))
+                out['msg'] = str(exc)[:200]
+                ctx = exc.__context__
+                if ctx is not None:
+                    out['context'] = '%s: %s' % (type(ctx).__name__,
+                                                 str(ctx)[:160])
+                    if ctx.__context__ is not None:
+                        out['context2'] = '%s: %s' % (
+                            type(ctx.__context__).__name__,
+                            str(ctx.__context__)[:160])
                 groups = getattr(exc, 'groups', None)
                 if groups is not None:
                     out['groups'] = sorted(str(g) for g in groups)
